@@ -47,6 +47,10 @@ def check(repo: Repo) -> Result:
     conversion_gate(repo, res)
     unit_additive(repo, res)
     no_write_before_refusal(repo, res, a)
+    from rules.ufunc import missing_unit_rule
+
+    r10 = res.rule("C01-R10", "an operand without units enters the dimension check as dimensionless (null unit), never with the other operand's unit (shared with C04-R11)", floor=4)
+    missing_unit_rule(a, res, r10)
     from rules import c16
     from rules.common import share
 
@@ -418,6 +422,7 @@ def no_write_before_refusal(repo, res, a):
 
 
 MUTANTS = [
+    Mutant("bare-operand-borrows-unit", ARR, "unyt_array.__array_ufunc__", '            if u1 is None and ufunc is not power:\n                u1 = Unit(registry=getattr(u0, "registry", None))', "            if u1 is None and ufunc is not power:\n                u1 = u0", ("C01-R10",)),
     Mutant("hypot-passthrough", ARR, None, "hypot: _preserve_units,", "hypot: _passthrough_unit,", ("C01-R1",)),
     Mutant("less-unchecked", ARR, None, "less: _comparison_unit,", "less: _return_without_unit,", ("C01-R1",)),
     Mutant("checked-set-shrunk", ARR, "unyt_array.__array_ufunc__", "                _arctan2_unit,\n", "", ("C01-R1",)),
